@@ -16,6 +16,14 @@ TOOL = sys.monitoring.PROFILER_ID
 EV = sys.monitoring.events
 
 
+def _rss():
+    try:
+        with open("/proc/self/statm") as f:
+            return int(f.read().split()[1]) * os.sysconf("SC_PAGE_SIZE")
+    except (OSError, ValueError, IndexError):
+        return 0
+
+
 class StepBudgetExceeded(BaseException):
     """Raised inside the code under test when the step budget is exhausted."""
 
@@ -92,6 +100,7 @@ class Monitor:
             nfd0 = len(os.listdir("/proc/self/fd"))
         except OSError:
             nfd0 = None
+        rss0 = _rss()
         tracemalloc.reset_peak()
         base = tracemalloc.get_traced_memory()[0]
         out = {"outcome": None, "value": None, "exc": None}
@@ -117,6 +126,8 @@ class Monitor:
         out["steps"] = self.steps
         out["swallowed_budget"] = self.raised > 0 and out["outcome"] != "step-budget"
         out["peak"] = max(0, tracemalloc.get_traced_memory()[1] - base)
+        # resident set growth that survives the call (allocations of C libraries tracemalloc cannot see: decoded images, XML trees)
+        out["rss_delta"] = max(0, _rss() - rss0)
         out["leaked"] = [getattr(f, "name", "?") for f in self.opened if not getattr(f, "closed", True)]
         out["opened"] = len(self.opened)
         try:
